@@ -550,6 +550,13 @@ class Program:
             lines.append("func gg%s[E any](_ E, a, b, n int, g1, g2, g3 bool) (_ Iter[%s]) {" % (self.pid, T))
             lines += body_named + ["\treturn", "}", ""]
             lines.append("func %s%s Iter[%s] {\n\treturn gg%s(\"x\", a, b, n, g1, g2, g3)\n}" % (self.name, SIG, T, self.pid))
+        elif form == "gmethod":
+            # method of a generic type, the element type comes from the receiver's type argument
+            lines.append("type grecv%s[E any] struct {\n\ta, b, n       E\n\tg1, g2, g3 bool\n}\n" % self.pid)
+            lines.append("func (r *grecv%s[E]) Gen(conv func(E) int) (_ Iter[%s]) {" % (self.pid, T))
+            lines.append("\ta, b, n, g1, g2, g3 := conv(r.a), conv(r.b), conv(r.n), r.g1, r.g2, r.g3\n\t_, _, _, _, _, _ = a, b, n, g1, g2, g3")
+            lines += body_named + ["\treturn", "}", ""]
+            lines.append("func %s%s Iter[%s] {\n\treturn (&grecv%s[int]{a, b, n, g1, g2, g3}).Gen(func(x int) int { return x })\n}" % (self.name, SIG, T, self.pid))
         elif form == "nested":
             # a generator that defines a function-literal generator and delegates to it
             lines.append("func %s%s (_ Iter[%s]) {" % (self.name, SIG, T))
@@ -569,7 +576,7 @@ class Program:
         return text
 
 
-FORMS = ["func", "func", "func", "lit", "method", "ptrmethod", "generic", "nested"]
+FORMS = ["func", "func", "func", "lit", "method", "ptrmethod", "generic", "nested", "gmethod"]
 
 
 def std_driver(name, K, extra_adv, nlo, nhi, ret_type="int"):
